@@ -50,7 +50,7 @@ VerdictC(p, e, s) ==
                       \* none of the caller's message objects was written to.  Either the insertion is lost -- or the
                       \* implementation copies messages on load, and the insertion went into a private copy that a later
                       \* reload replaced (legitimate) or that is the final state (then with exactly that message's bits)
-                      IF "fin" \in DOMAIN e /\ e.fin.loaded /\ (e.fin.bits = <<>> \/ SetOfSeq(e.fin.bits) = (IF e.fin.t = 0 THEN d0 ELSE d1)) /\ e.nmsgs > 1
+                      IF "fin" \in DOMAIN e /\ e.fin.loaded /\ ((e.fin.bits = <<>> /\ e.nmsgs > 1) \/ SetOfSeq(e.fin.bits) = (IF e.fin.t = 0 THEN d0 ELSE d1))
                         THEN OK ELSE V("insertion-lost-under-concurrent-reload", 1, 0)
                  ELSE IF wrong # {} THEN V("insertion-bits-do-not-belong-to-the-loaded-message", [t |-> e.touched[CHOOSE k \in wrong : TRUE].t, d0 |-> d0, d1 |-> d1], e.touched[CHOOSE k \in wrong : TRUE].bits)
                  ELSE IF Len(e.touched) > 1 THEN V("insertion-applied-to-several-messages", 1, Len(e.touched))
